@@ -488,7 +488,9 @@ func (oc *objectCache) get(obj types.Object) (val interface{}, errs []error) {
 	switch obj := obj.(type) {
 	case *types.Var:
 		spec := oc.varDecl(obj)
-		if spec == nil || len(spec.Values) == 0 {
+		if spec == nil || len(spec.Values) != len(spec.Names) {
+			// No initializer, or one multi-valued initializer for several
+			// variables (var a, b = f()): nothing Wire can analyze.
 			return nil, []error{fmt.Errorf("%v is not a provider or a provider set", obj)}
 		}
 		var i int
